@@ -259,4 +259,43 @@ Section OpenEnd.
     destruct (newest_batches k acc (all_entries (absS st0)) s0 cur e m e Hacc Hch Hgap' Hold Htab ltac:(lia) ltac:(lia)) as (G & _).
     exact G.
   Qed.
+
+  (* ---------------------------------------------------------------- a DB without tables (used for non-vacuity) *)
+  Lemma chain_newer_empty (cs : list (list entry)) : Forall (fun x => x = []) cs -> chain_newer cs.
+  Proof.
+    induction 1 as [|x cs -> Hcs IH]; cbn [chain_newer]; [exact I|]. split; [|exact IH].
+    apply Forall_forall. intros y _ a b [].
+  Qed.
+
+  Theorem empty_state_answers d0 lvls k s :
+    mem_ok c p mp d0 -> mem_entries mp (Some d0) = [] -> Forall (fun l => l = []) lvls -> wf_bytes k -> s <= keyMaxSeq p ->
+    wfb (mkBS (Some d0) None lvls) /\ all_entries (absS (mkBS (Some d0) None lvls)) = [] /\
+    bapi (getb (mkBS (Some d0) None lvls) k s) = Some None.
+  Proof.
+    intros Hm He Hl Wk Hs.
+    assert (Elv : map (map (abs_table c tp crc decompress fname ufc verify ri)) lvls = map (fun _ => []) lvls).
+    { induction Hl as [|x l -> Hl IH]; [reflexivity|]. cbn [map]. f_equal. exact IH. }
+    assert (Eall : all_entries (absS (mkBS (Some d0) None lvls)) = []).
+    { unfold all_entries, all_tables. cbn [ReadPath.abs st_mem st_frozen st_aux st_levels bs_mem bs_frozen bs_levels].
+      rewrite He, Elv. cbn [mem_entries app]. clear. induction lvls as [|x l IH]; [reflexivity|]. cbn [map concat app]. exact IH. }
+    assert (W : wfb (mkBS (Some d0) None lvls)).
+    { constructor; cbn [bs_mem bs_frozen bs_levels].
+      - intros d E. injection E as <-. exact Hm.
+      - intros d E. discriminate.
+      - clear - Hl. induction Hl as [|x l -> Hl IH]; [constructor|constructor; [constructor|exact IH]].
+      - constructor; cbn [ReadPath.abs st_mem st_frozen st_aux st_levels bs_mem bs_frozen bs_levels]; rewrite ?He, ?Elv.
+        + split; [exact I|constructor].
+        + split; [exact I|constructor].
+        + split; [constructor|constructor].
+        + destruct lvls; cbn [map hd]; split; constructor.
+        + destruct lvls as [|x l]; cbn [map tl]; [constructor|]. clear. induction l as [|y l IH]; cbn [map]; constructor; [|exact IH].
+          split; [constructor|]. exact I.
+        + apply chain_newer_empty. unfold comps.
+          cbn [ReadPath.abs st_mem st_frozen st_aux st_levels bs_mem bs_frozen bs_levels]. rewrite He, Elv.
+          cbn [mem_entries level_entries map concat].
+          repeat (constructor; [reflexivity|]). clear. induction lvls as [|y l IH]; cbn [map]; constructor; [reflexivity|exact IH]. }
+    split; [exact W|]. split; [exact Eall|].
+    rewrite (get_correct_bytes c ok p pok seek_val mp mpok tp crc decompress fname ufc verify ri k s Wk Hs _ W), Eall.
+    reflexivity.
+  Qed.
 End OpenEnd.
